@@ -23,12 +23,33 @@ def programs(tier):
                     k = p + n - 1          # the access just fits the guard
                 for kind in ("read", "write", "update"):
                     out.append((f"{kind} {fmt or code} @{p} guard>{k}", kind, fmt, p, k))
+    # explicit length guards (`with self.packetSize > k`, `>= k + 1`): the same
+    # guard semantics - the body runs exactly on packets longer than k bytes
+    for form in ("gt", "ge"):
+        for fmt, p, k in (("B", 19, 19), ("H", 31, 32), ("<I", 60, 63)):
+            out.append((f"read {fmt} @{p} guard>{k} ({form})", "read:" + form, fmt, p, k))
     return out
 
 
 def build(kind, fmt, p, k):
     from ebpfcat.ebpf import LocalVar
     from ebpfcat.xdp import XDP, PacketVar, XDPExitCode
+
+    kind, _, form = kind.partition(":")
+    if form:
+        class G(XDP):
+            license = "GPL"
+            pv = PacketVar(p, fmt)
+            lv = LocalVar("q")
+
+            def program(self):
+                guard = (self.packetSize > k) if form == "gt" else (self.packetSize >= k + 1)
+                with guard:
+                    self.lv = self.pv
+                    self.exit(XDPExitCode.TX)
+                self.exit(XDPExitCode.PASS)
+        prog = G()
+        return prog.assemble(), G.lv.relative_addr
 
     class P(XDP):
         minimumPacketSize = k
